@@ -291,10 +291,12 @@ def namespace():
 class Interpreted:
     """The current ``.pyx`` executed by CPython."""
 
-    def __init__(self, path):
+    def __init__(self, path, text=None):
         self.path = path
-        with open(path) as fh:
-            self.text = fh.read()
+        if text is None:
+            with open(path) as fh:
+                text = fh.read()
+        self.text = text
         self.rw = rewrite(self.text)
         self.ns = namespace()
         exec(compile(self.rw.py_text, path, "exec"), self.ns)  # noqa: S102  (our own source tree)
